@@ -111,9 +111,7 @@ JudgeMul(e) ==
 
 JudgeRuffini(e) ==
   IF e.res # "ok" THEN M("outcome")
-  ELSE IF /\ Pl!IsQuotientByLinear(e.out.l, Vec(e.a), e.x)
-          /\ Pl!Norm(e.out.l) = e.out.l
-       THEN V("definition") ELSE M("other")
+  ELSE IF Pl!IsQuotientByLinear(e.out.l, Vec(e.a), e.x) THEN V("definition") ELSE M("other")
 
 (* ---------------- closed forms ---------------- *)
 JudgeLagrange(e) ==
